@@ -1,4 +1,5 @@
 import FcpptModel.Model.C14
+import FcpptModel.Model.C14.Member
 /-!
 # C14 — specification vocabulary that needs no library
 
@@ -25,5 +26,33 @@ def bitOf (k i : Nat) : Int := if k.testBit i then 1 else 0
 
 /-- `Σ_{k<n} f k`, the plain-array meaning of the C++ folds -/
 def sumFin {n : Nat} (f : Fin n → Int) : Int := ((List.finRange n).map f).sum
+
+/-! ## objects in memory (member operators) -/
+
+/-- the first cell of an lvalue storage: `storage[i]` is the cell `base + i` (theorem `addr_eq_base_add`) -/
+def Ref.base {len : Nat} : {n : Nat} → Ref len n → Nat
+  | _, .static base _ => base
+  | _, .buffer ptr _ => ptr
+  | _, .rowView impl offset _ => impl.base + offset
+
+/-- `left op= right` does not overwrite a component of `right` before it is read: component `i` of the right operand is
+    none of the cells `left[0] … left[i-1]` that are written before step `i`.  Holds for the same object, for disjoint
+    objects, for two row views of one matrix (theorems `noClobber_self`, `noClobber_of_disjoint`, `noClobber_rows`,
+    `noClobber_iff`). -/
+def NoClobber {len n : Nat} (left right : Ref len n) : Prop :=
+  ∀ i j : Fin n, j.val < i.val → left.addr j ≠ right.addr i
+
+/-- `a` is none of the cells of `r` -/
+def Ref.Outside {len n : Nat} (r : Ref len n) (a : Fin len) : Prop := ∀ i : Fin n, r.addr i ≠ a
+
+/-- the cell `a` is outside the target of the statement -/
+def Stmt.TargetOutside {len : Nat} (a : Fin len) : Stmt len → Prop
+  | .add t _ => t.Outside a
+  | .sub t _ => t.Outside a
+  | .mul t _ => t.Outside a
+  | .smul t _ => t.Outside a
+  | .asg t _ => t.Outside a
+  | .ctor t _ => t.Outside a
+  | .set t _ _ => t.Outside a
 
 end Fcppt.C14
